@@ -327,6 +327,17 @@ def node_job(interp, c, case):
         node.set_exponent(kids[1])
     elif cls in ("ExpTerm", "LogTerm", "StepTerm", "AbsTerm"):
         node.set_arg(kids[0])
+    if cls == "StepTerm":
+        # whatever value the step takes AT 0 (conventions differ; outside the claim below), the plain and the volume-aware evaluation take
+        # the same one: a volume simulation at volume 1 has the plain simulation's rates
+        g1 = node.evaluate(ptr(interp, sv), ptr(interp, pv), t)
+        g2 = node.volume_evaluate(ptr(interp, sv), ptr(interp, pv), V, t)
+        ok = c.prove(_sym.s_implies(kids[0].v == kids[0].vv, g1 == g2), "StepTerm: plain and volume-aware evaluation agree whenever the argument has the same value (also at 0)",
+                     info={"sig": "term node StepTerm at 0", "what": "StepTerm plain vs volume-aware at equal arguments"})
+        if ok is False:
+            c.failures[-1]["replay"] = {"text": "Heaviside(A - 1.5) + 2*Heaviside(x2 - 0.75)", "mode": "step-consistency",
+                                        "values": dict({"s_A": 1.5, "s_B_1": 2.0, "s_x2": 0.75, "s_C": 3.0, "s_S": 1.25, "s_I": 0.5, "t": 0.5, "V": 1.0},
+                                                       **{"p_" + p_: 1.0 for p_ in PARAMS})}
     for mode in ("plain", "volume"):
         vals = [k.v if mode == "plain" else k.vv for k in kids]
         got = node.evaluate(ptr(interp, sv), ptr(interp, pv), t) if mode == "plain" else \
